@@ -27,6 +27,16 @@ structure Prims (F : Type) where
   bTwistCurveCoeff : F                       -- b of the twist (G2 text of bw6-633 / bw6-761)
   isInSubGroup : F → F → Bool                -- (*G1Affine).IsInSubGroup of the point (X, Y)
 
+/-- component access of a tower coordinate (G2 over Fp² / Fp⁴): `z.<path>.SetBytesCanonical(bs)` = `sbc bs` then `setComp path z`;
+`PutElement(w, z.<path>)` = `put (getComp path z)`; `Legendre`, and the `Sqrt` whose result the text does not inspect -/
+structure Comps (F B : Type) where
+  sbc : List UInt8 → Option B
+  setComp : String → F → B → F
+  getComp : String → F → B
+  put : B → List UInt8
+  legendre : F → Int
+  sqrtU : F → F
+
 /-- `s[i:j]` (bounds inside `len`: checked statically for arrays, guarded for slices) -/
 def goSlice (l : List UInt8) (i j : Nat) : List UInt8 := (l.drop i).take (j - i)
 
